@@ -11,18 +11,18 @@ R(r) == [t |-> r[1], n |-> r[2], v |-> r[3], key |-> r[4], conf |-> r[5]]
 Rep(l) == [i \in 1..Len(l) |-> R(l[i])]
 Q(q) == [recips |-> [i \in 1..Len(q.recips) |-> [id |-> q.recips[i][1], v |-> q.recips[i][2]]], fee |-> q.fee, minconf |-> q.minconf,
          inkeys |-> {q.inkeys[i] : i \in 1..Len(q.inkeys)}, sweep |-> q.sweep, feemin |-> q.feemin, feemax |-> q.feemax,
-         above |-> q.above, nexplicit |-> Len(q.explicit), explicit |-> {<<q.explicit[i][1], q.explicit[i][2]>> : i \in 1..Len(q.explicit)}]
+         acct |-> q.acct, above |-> q.above, nexplicit |-> Len(q.explicit), explicit |-> {<<q.explicit[i][1], q.explicit[i][2]>> : i \in 1..Len(q.explicit)}]
 X(x) == [ins |-> [i \in 1..Len(x.ins) |-> [t |-> x.ins[i][1], n |-> x.ins[i][2], v |-> x.ins[i][3]]],
          outs |-> [i \in 1..Len(x.outs) |-> [v |-> x.outs[i][1], key |-> x.outs[i][2], rid |-> x.outs[i][3]]],
          fee |-> x.fee, vsize |-> x.vsize]
-Keys(l) == {[id |-> l[i][1], change |-> l[i][2]] : i \in 1..Len(l)}
+Keys(l) == {[id |-> l[i][1], change |-> l[i][2], acct |-> l[i][3]] : i \in 1..Len(l)}
 
 \* state after event e, or the clause that forbids it: [ok, s, why]
 Step(s0, e) ==
   LET s == [s0 EXCEPT !.keys = @ \cup Keys(e.keys)] IN
   CASE e.op \in {"key", "reopen", "observe"} -> [ok |-> TRUE, s |-> s, why |-> "", dev |-> ""]
     [] e.op = "utxo_add" -> [ok |-> TRUE, s |-> UtxosUpdate(s, Rep(e.rep), FALSE), why |-> "", dev |-> ""]
-    [] e.op = "utxos_update" -> [ok |-> TRUE, s |-> UtxosUpdate(s, Rep(e.rep), e.rescan), why |-> "", dev |-> ""]
+    [] e.op = "utxos_update" -> [ok |-> TRUE, s |-> UtxosUpdateA(s, Rep(e.rep), e.rescan, e.acct), why |-> "", dev |-> ""]
     [] e.op = "tx" ->
          LET q == Q(e.q) IN
          IF ~e.created THEN [ok |-> TRUE, s |-> s, why |-> "", dev |-> ""]        \* refusing is always allowed (C07 forbids wrong transactions)
@@ -34,9 +34,13 @@ Step(s0, e) ==
     [] OTHER -> [ok |-> FALSE, s |-> s, why |-> "unknown-event", dev |-> ""]
 
 UtxoSet(l) == {<<l[i][1], l[i][2], l[i][3]>> : i \in 1..Len(l)}
+\* o.balance / o.utxos: what the wallet reports without naming an account (its default account o.acct);
+\* o.accts: <<account, balance, utxos>> for every account asked by number
 ObsWhy(s, o) ==
-    IF o.balance # Balance(s) THEN "balance-is-not-the-sum-of-unspent-outputs"
-    ELSE IF UtxoSet(o.utxos) # {<<c.t, c.n, c.v>> : c \in Unspent(s)} \/ Len(o.utxos) # Cardinality(Unspent(s)) THEN "utxos-differ-from-the-ledger"
+    IF o.balance # BalanceA(s, o.acct) THEN "balance-is-not-the-sum-of-unspent-outputs"
+    ELSE IF UtxoSet(o.utxos) # {<<c.t, c.n, c.v>> : c \in UnspentA(s, o.acct)} \/ Len(o.utxos) # Cardinality(UnspentA(s, o.acct)) THEN "utxos-differ-from-the-ledger"
+    ELSE IF \E i \in 1..Len(o.accts) : o.accts[i][2] # BalanceA(s, o.accts[i][1]) THEN "account-balance-differs"
+    ELSE IF \E i \in 1..Len(o.accts) : UtxoSet(o.accts[i][3]) # {<<c.t, c.n, c.v>> : c \in UnspentA(s, o.accts[i][1])} THEN "account-utxos-differ"
     ELSE IF \E i \in 1..Len(o.keybal) : o.keybal[i][2] # KeyBalance(s, o.keybal[i][1]) THEN "key-balance-differs"
     ELSE IF \E i \in 1..Len(o.wkbal) : o.wkbal[i][2] # KeyBalance(s, o.wkbal[i][1]) THEN "walletkey-balance-differs"
     ELSE "ok"
@@ -55,15 +59,15 @@ Run(s, evs, i, devs, bals, issues) ==
              seen == "noobs" \notin DOMAIN evs[i]
              live == IF seen THEN ObsWhy(s1, evs[i].live) ELSE "ok"
              fresh == IF seen THEN ObsWhy(s1, evs[i].fresh) ELSE "ok"
-             nb == bals \cup {Balance(s1)} IN
-         IF fresh # "ok" THEN Run(s1, evs, i + 1, devs, nb, Append(iss1, [at |-> i, kind |-> "observation", why |-> "reopened-wallet: " \o fresh, exp |-> Balance(s1), dev |-> ""]))
+             nb == bals \cup {BalanceA(s1, evs[i].live.acct)} IN
+         IF fresh # "ok" THEN Run(s1, evs, i + 1, devs, nb, Append(iss1, [at |-> i, kind |-> "observation", why |-> "reopened-wallet: " \o fresh, exp |-> BalanceA(s1, evs[i].live.acct), dev |-> ""]))
          ELSE IF live = "ok" THEN Run(s1, evs, i + 1, devs, nb, iss1)
          \* named deviations: the live object serves a value that was right in an earlier state of this history
          ELSE IF live = "balance-is-not-the-sum-of-unspent-outputs" /\ evs[i].live.balance \in bals
               THEN Run(s1, evs, i + 1, devs \cup {"live-balance-cache-stale"}, nb, iss1)
          ELSE IF live = "key-balance-differs"
               THEN Run(s1, evs, i + 1, devs \cup {"live-keys-balance-stale"}, nb, iss1)
-         ELSE Run(s1, evs, i + 1, devs, nb, Append(iss1, [at |-> i, kind |-> "observation", why |-> "live-wallet: " \o live, exp |-> Balance(s1), dev |-> ""]))
+         ELSE Run(s1, evs, i + 1, devs, nb, Append(iss1, [at |-> i, kind |-> "observation", why |-> "live-wallet: " \o live, exp |-> BalanceA(s1, evs[i].live.acct), dev |-> ""]))
 
 SetToSeq(S) == CHOOSE f \in [1..Cardinality(S) -> S] : \A i, j \in 1..Cardinality(S) : i # j => f[i] # f[j]
 Out == [k \in 1..Len(Recs) |-> LET r == Run(InitS, Recs[k].events, 1, {}, {0}, <<>>) IN
